@@ -5,6 +5,8 @@ package main
 // must report them under a key containing Expect. "Silent" variants preserve behaviour; no new
 // violation may appear. A variant whose anchor text is gone is reported as skipped, never as a violation.
 
+import "strings"
+
 func init() {
 	gb := "io/genbank/genbank.go"
 	cd := "transform/codon/codon.go"
@@ -285,4 +287,42 @@ func init() {
 	silent("C15", "features-collected-in-a-capacity-limited-cut", pj, pjParse, "var featureBuffer = []poly.Feature{}\n\nfunc Parse(file []byte) poly.Sequence {\n${1}\tsequence.Features = featureBuffer[:0:0]\n")
 	twoAtomics := "import (\n\t\"strings\"\n\t\"sync/atomic\"\n)\n\nvar (\n\tlastSequence          atomic.Value\n\tlastReverseComplement atomic.Value\n)\n${1}func ReverseComplement(sequence string) string {\n\tif last, ok := lastSequence.Load().(string); ok && last == sequence {\n\t\treturn lastReverseComplement.Load().(string)\n\t}\n${2}\treverseComplement := string(newString)\n\tlastReverseComplement.Store(reverseComplement)\n\tlastSequence.Store(sequence)\n\treturn reverseComplement\n}\n\n// Complement takes"
 	fire("C11", "last-call-remembered-in-two-atomics", "transform/transform.go", `(?s)import "strings"\n(.*?)func ReverseComplement\(sequence string\) string \{\n(.*?)\treturn string\(newString\)\n\}\n\n// Complement takes`, twoAtomics, "STATE/atomic-pair")
+}
+
+// positive examples for rules added in the later rounds (17-22), each with a sound sibling where one exists
+func init() {
+	sh := "seqhash/seqhash.go"
+	pm := "primers/primers.go"
+	up := "io/uniprot/uniprot.go"
+	pj := "io/polyjson/polyjson.go"
+	cd := "transform/codon/codon.go"
+	fire := func(prop, name, file, find, repl, expect string) {
+		addVariant(variant{Prop: prop, Name: name, File: file, Find: find, Replace: repl, Expect: expect})
+	}
+	silent := func(prop, name, file, find, repl string) {
+		addVariant(variant{Prop: prop, Name: name, File: file, Find: find, Replace: repl, Silent: true})
+	}
+	tmLine := `\tmeltingTemp = dH\*1000/\(dS\+gasConstant\*math\.Log\(primerConcentration/symmetryFactor\)\) - 273\.15\n`
+	fire("C19", "melting-temperature-cut-off-at-zero", pm, tmLine, "\tmeltingTemp = math.Max(dH*1000/(dS+gasConstant*math.Log(primerConcentration/symmetryFactor))-273.15, 0)\n", "TERM-TM/Tm")
+	folded := func(buffer string) string {
+		return "func upperCase(sequence string) string {\n" + buffer + "\tfor i, base := range folded {\n\t\tif 'a' <= base && base <= 'z' {\n\t\t\tfolded[i] = base - ('a' - 'A')\n\t\t}\n\t}\n\treturn string(folded)\n}\n\n// SantaLucia calculates${1}\tsequence = upperCase(sequence)\n"
+	}
+	slHead := `(?s)// SantaLucia calculates(.*?float64\) \{\n)\tsequence = strings\.ToUpper\(sequence\)\n`
+	fire("C19", "oligo-folded-in-a-64-byte-array", pm, slHead, folded("\tvar buffer [64]byte\n\tfolded := buffer[:copy(buffer[:], sequence)]\n"), "STATE/truncating-copy")
+	silent("C19", "oligo-folded-in-its-own-copy", pm, slHead, folded("\tfolded := []byte(sequence)\n"))
+	fire("C19", "oligo-folded-without-a-and-z", pm, slHead, strings.Replace(strings.Replace(folded("\tfolded := []byte(sequence)\n"), "'a' <= base", "'a' < base", 1), "base <= 'z'", "base < 'z'", 1), "STATE/strict-letter-range")
+	bans := func(list string) string {
+		return "\tdebruijn := NucleobaseDeBruijnSequence(maxSubSequence)\n\tfitting := " + list + "\n\tfor _, bannedSequence := range bannedSequences {\n\t\tif len(bannedSequence) <= length {\n\t\t\tfitting = append(fitting, bannedSequence)\n\t\t}\n\t}\n\tbannedSequences = fitting\n"
+	}
+	deb := `\tdebruijn := NucleobaseDeBruijnSequence\(maxSubSequence\)\n`
+	fire("C17", "bans-filtered-in-the-callers-list", pm, deb, bans("bannedSequences[:0]"), "STATE/filter-in-place")
+	silent("C17", "bans-filtered-into-a-fresh-list", pm, deb, bans("make([]string, 0, len(bannedSequences))"))
+	rot := `(?s)\tconcatenatedSequence := sequenceBuilder\.String\(\)\n\tsequence = concatenatedSequence\[rotationIndex : rotationIndex\+len\(sequence\)\]\n\treturn sequence\n`
+	fire("C12", "rotation-written-byte-by-byte-as-runes", sh, rot, "\tconcatenatedSequence := sequenceBuilder.String()\n\tvar turned strings.Builder\n\tfor i := 0; i < len(sequence); i++ {\n\t\tturned.WriteRune(rune(sequence[(rotationIndex+i)%len(sequence)]))\n\t}\n\t_ = concatenatedSequence\n\treturn turned.String()\n", "STATE/byte-widened")
+	silent("C12", "rotation-written-byte-by-byte", sh, rot, "\tconcatenatedSequence := sequenceBuilder.String()\n\tvar turned strings.Builder\n\tfor i := 0; i < len(sequence); i++ {\n\t\tturned.WriteByte(concatenatedSequence[rotationIndex+i])\n\t}\n\treturn turned.String()\n")
+	fire("C20", "entries-without-an-accession-are-skipped", up, `\t\t\tentries <- e\n`, "\t\t\tif len(e.Accession) == 0 {\n\t\t\t\tcontinue\n\t\t\t}\n\t\t\tentries <- e\n", "GUARD/entry send")
+	fire("C15", "linear-cleared-when-circular", pj, `\tlegacyFeatures := sequence\.Features\n`, "\tif sequence.Meta.Locus.Circular {\n\t\tsequence.Meta.Locus.Linear = false\n\t}\n\tlegacyFeatures := sequence.Features\n", "RELINK/Parse:decoded fields")
+	fire("C05", "type-letter-cut-before-the-type-is-checked", sh, `\t// By definition, Seqhashes are of uppercase sequences\n\tsequence = strings\.ToUpper\(sequence\)\n`, "\ttypeLetter := sequenceType[:1]\n\t_ = typeLetter\n\tsequence = strings.ToUpper(sequence)\n", "GUARD/type text")
+	lookup := `\t\t\taminoAcids\.WriteString\(translationTable\[strings\.ToUpper\(currentCodon\.String\(\)\)\]\)\n`
+	silent("C06", "codon-upper-cased-only-when-it-has-lower-case", cd, `(?s)`+lookup+`(.*?)\n// Optimize takes`, "\t\t\taminoAcids.WriteString(translationTable[upperCaseCodon(currentCodon.String())])\n${1}\nfunc upperCaseCodon(codon string) string {\n\tfor i := 0; i < len(codon); i++ {\n\t\tif codon[i] >= 0x80 || ('a' <= codon[i] && codon[i] <= 'z') {\n\t\t\treturn strings.ToUpper(codon)\n\t\t}\n\t}\n\treturn codon\n}\n\n// Optimize takes")
 }
